@@ -281,3 +281,104 @@ Theorem hourly_range_end_on_fold_refuted :
   zone_wf 3600 la = true /\ utc_to_wall la b mod 3600 = 0 /\ fold_of la b = true /\
   model_totals la evs a b PHour = Some [3600] /\ measure evs a b = 7200.
 Proof. vm_compute. repeat split; reflexivity. Qed.
+
+(* ---------- group_by buckets, fuel, calendar alignment (Proofs/MetricsP2.v) ---------- *)
+From CG Require Import Proofs.MetricsP2.
+
+(* group_by: the buckets are keyed by group_key of their windows' labels, keys ascending and unique,
+   and the bucket totals add up to the per-period rows — for ANY timeline expression *)
+Theorem C13_grouped_total_adds_up : forall z tl s e p g,
+  valid_group_by p (Some g) = true ->
+  let a := coerce_bound z s in let b := coerce_bound z e in let c := cached_timeline tl a b in
+  exists ws out,
+    period_windows_dt z a b p = Some ws /\
+    total_duration z tl s e p (Some g) = RInts out /\
+    total_duration z tl s e p None
+      = RInts (map (fun w => (label_of p (wlabel w), wval total_duration_ c w)) ws) /\
+    buckets_int_ok g (wval total_duration_ c) ws out = true /\
+    sumZ (map snd out) = sumZ (map (wval total_duration_ c) ws).
+Proof. exact grouped_total_adds_up. Qed.
+Print Assumptions C13_grouped_total_adds_up.
+
+Theorem C13_grouped_count_adds_up : forall z tl s e p g,
+  valid_group_by p (Some g) = true ->
+  let a := coerce_bound z s in let b := coerce_bound z e in let c := cached_timeline tl a b in
+  exists ws out,
+    period_windows_dt z a b p = Some ws /\
+    count_intervals z tl s e p (Some g) = RInts out /\
+    count_intervals z tl s e p None = RInts (map (fun w => (label_of p (wlabel w), wval count_ c w)) ws) /\
+    buckets_int_ok g (wval count_ c) ws out = true /\
+    sumZ (map snd out) = sumZ (map (wval count_ c) ws).
+Proof. exact grouped_count_adds_up. Qed.
+Print Assumptions C13_grouped_count_adds_up.
+
+(* for stored timelines, under the hypotheses of C13_total_duration_rows: the grouped totals sum to
+   the measure of the full range and each grouped ratio is (sum covered)/(sum lengths) in [0,1] *)
+Theorem C13_grouped_stored_correct : forall z evs s e p g,
+  valid_group_by p (Some g) = true ->
+  let a := coerce_bound z s in let b := coerce_bound z e in
+  Forall wf_ivl evs -> NEG_INF < a -> a < b -> b < POS_INF ->
+  zone_wf (unit_of_period p) z = true ->
+  (utc_to_wall z b mod unit_of_period p = 0 -> fold_of z b = false) ->
+  exists ws outT outR,
+    period_windows_dt z a b p = Some ws /\
+    total_duration z (Stored evs) s e p (Some g) = RInts outT /\
+    coverage_ratio z (Stored evs) s e p (Some g) = RRats outR /\
+    (Forall win_bounded ws ->
+       buckets_int_ok g (spec_total evs a b) ws outT = true /\
+       additive_ok evs a b outT = true /\
+       sumZ (map snd outT) = measure evs a b /\
+       buckets_rat_ok g evs a b ws outR = true /\
+       Forall (fun o => snd o = bucket_ratio g (spec_total evs a b) ws (fst o) /\
+                        0 <= fst (snd o) <= snd (snd o) /\ 0 < snd (snd o)) outR).
+Proof. exact grouped_stored_correct. Qed.
+Print Assumptions C13_grouped_stored_correct.
+
+(* the stepping loops never run out of fuel: no zone hypothesis needed *)
+Theorem C13_windows_fuel_enough : forall z a b p, period_windows_dt z a b p <> None.
+Proof. exact win_loop_fuel_enough. Qed.
+Print Assumptions C13_windows_fuel_enough.
+
+Theorem C13_metrics_never_out_of_fuel : forall z tl f s e p g, metrics_run z tl f s e p g <> RFuel.
+Proof. exact metrics_never_out_of_fuel. Qed.
+Print Assumptions C13_metrics_never_out_of_fuel.
+
+(* calendar alignment in full: every window starts at a local boundary of its period (the hour, local
+   midnight, Monday, the 1st, 1 January), reaches exactly the next one, and consecutive windows are
+   contiguous with consecutive labels — hour / day / week / month / year *)
+Theorem C13_windows_calendar_aligned : forall z a b p ws,
+  zone_wf (unit_of_period p) z = true -> p <> PFull ->
+  period_windows_dt z a b p = Some ws ->
+  forallb (window_ok z p) ws = true /\ contiguous p ws = true.
+Proof. exact windows_calendar_aligned. Qed.
+Print Assumptions C13_windows_calendar_aligned.
+
+(* the oracle the check applies to the implementation's windows holds of the model when the range
+   does not end on a transition (neither a repeated nor a skipped boundary) *)
+Theorem C13_model_windows_ok : forall z a b p ws,
+  zone_wf (unit_of_period p) z = true -> a < b ->
+  (utc_to_wall z b mod unit_of_period p = 0 -> fold_of z b = false) ->
+  end_not_on_gap (unit_of_period p) z b ->
+  period_windows_dt z a b p = Some ws -> windows_ok z p a b ws = true.
+Proof. exact model_windows_ok. Qed.
+Print Assumptions C13_model_windows_ok.
+
+(* ... and the last hypothesis cannot be dropped (KF-M3, skipped-boundary variant): a range ending
+   exactly when America/Havana skips from 00:00 to 01:00 gets a spurious extra row (same in /repo) *)
+Theorem C13_day_range_end_on_gap_refuted :
+  let s := BDate 2024 3 9 in let e := BDate 2024 3 10 in
+  let a := coerce_bound MetricsP2.havana_tab s in let b := coerce_bound MetricsP2.havana_tab e in
+  let evs := [mkI (Some 1709900000) (Some 1710040000) (Rich 1)] in
+  zone_wf (unit_of_period PDay) MetricsP2.havana_tab = true /\ a < b /\ fold_of MetricsP2.havana_tab b = false /\
+  utc_to_wall MetricsP2.havana_tab (b - 1) = 19792 * 86400 - 1 /\ utc_to_wall MetricsP2.havana_tab b = 19792 * 86400 + 3600 /\
+  ~ end_not_on_gap (unit_of_period PDay) MetricsP2.havana_tab b /\
+  total_duration MetricsP2.havana_tab (Stored evs) s e PDay None = RInts [(19791, 79600); (19792, 0)] /\
+  total_duration MetricsP2.havana_tab (Stored evs) s e PDay (Some GDayOfWeek) = RInts [(5, 79600); (6, 0)] /\
+  coverage_ratio MetricsP2.havana_tab (Stored evs) s e PDay None = RRats [(19791, (79600, 86400)); (19792, (0, 82800))] /\
+  measure evs a b = 79600 /\
+  exists ws, period_windows_dt MetricsP2.havana_tab a b PDay = Some ws /\ windows_ok MetricsP2.havana_tab PDay a b ws = false.
+Proof. exact day_range_end_on_gap_refuted. Qed.
+Print Assumptions C13_day_range_end_on_gap_refuted.
+
+Example C13_grouped_nonvacuous : _ := MetricsP2.grouped_hypotheses_satisfiable.
+Example C13_calendar_aligned_nonvacuous : _ := MetricsP2.windows_hypotheses_satisfiable.
